@@ -31,6 +31,21 @@ pub struct ConstMap { _p: u8 }
 fn string_eq(a: &String, b: &String) -> (r: bool) ensures r == (a@ == b@) { a == b }
 
 #[verifier::external_body]
+fn string_is_empty(a: &String) -> (r: bool) ensures r == (a@.len() == 0) { a.is_empty() }
+
+// R13 / R14 stand-ins
+#[verifier::external_body]
+fn verif_format() -> String { String::new() }
+#[verifier::external_body]
+fn verif_intern(s: &str) -> Gc<ObjString> { unimplemented!() }
+impl Value {
+    // stand-in for the enum constructor `Value::ObjString(..)`: Value is opaque in this unit
+    #[verifier::external_body]
+    #[allow(non_snake_case)]
+    fn ObjString(g: Gc<ObjString>) -> Value { unimplemented!() }
+}
+
+#[verifier::external_body]
 fn string_clone(a: &String) -> (r: String) ensures r@ == a@ { a.clone() }
 
 // R6: the writer (`to_ne_bytes`) and the VM's reader (`u16::from_ne_bytes`, vm.rs read_short!) are inverse.
@@ -300,8 +315,146 @@ impl Parser {
     //@  ensures final(self).pwf()
     //@  ensures final(self).has_error() || ((r as int) < final(self).cur().chunk.constants@.len() && final(self).cur().chunk.constants@[r as int] == value)
     //@  ensures final(self).cur().chunk.constants@.subrange(0, old(self).cur().chunk.constants@.len() as int) == old(self).cur().chunk.constants@
-    //@  ensures final(self).code() == old(self).code()
+    //@  ensures final(self).code() == old(self).code() && final(self).cur().chunk.lines == old(self).cur().chunk.lines
     //@  ensures old(self).has_error() ==> final(self).has_error()
+    //@  ensures final(self).compilers.len() == old(self).compilers.len() && final(self).pushed == old(self).pushed
+    //@  ensures forall|i: int| 0 <= i < old(self).compilers.len() - 1 ==> final(self).compilers[i] == old(self).compilers[i]
+    //@  ensures final(self).cur().locals == old(self).cur().locals && final(self).cur().upvalues == old(self).cur().upvalues && final(self).cur().scope_depth == old(self).cur().scope_depth
+    //@end
+    // ---------------------------------------------------------------- token-level stubs (scanner side; C03 is not claimed)
+    #[verifier::external_body]
+    fn check(&self, kind: TokenKind) -> (r: bool) { unimplemented!() }
+
+    #[verifier::external_body]
+    fn match_token(&mut self, kind: TokenKind) -> (r: bool)
+        ensures old(self).same_but_tokens_errors(final(self)),
+    { unimplemented!() }
+
+    #[verifier::external_body]
+    fn consume(&mut self, kind: TokenKind, message: &str)
+        ensures old(self).same_but_tokens_errors(final(self)),
+    { unimplemented!() }
+
+    #[verifier::external_body]
+    fn advance(&mut self)
+        ensures old(self).same_but_tokens_errors(final(self)),
+    { unimplemented!() }
+
+    // Pratt parser entry: emits arbitrary code into the current chunk, may open/close nested compilers (net zero),
+    // leaves exactly one more operand on the (abstract) operand stack. Assumed; the parser as a whole is out of reach.
+    #[verifier::external_body]
+    fn expression(&mut self)
+        requires old(self).pwf(), 0 <= old(self).pushed,
+        ensures final(self).pwf(), final(self).compilers.len() == old(self).compilers.len(),
+            final(self).pushed == old(self).pushed + 1, final(self).pushed < 0x3000_0000,
+            old(self).has_error() ==> final(self).has_error(),
+            old(self).code().len() <= final(self).code().len(),
+    { unimplemented!() }
+
+    spec fn same_but_tokens_errors(&self, b: &Parser) -> bool {
+        &&& self.compilers == b.compilers && self.class_compilers == b.class_compilers && self.pushed == b.pushed
+        &&& self.single_target_mode == b.single_target_mode
+        &&& (self.has_error() ==> b.has_error())
+    }
+
+    //@fn file=yarel/src/compiler.rs path=Parser::emit_constant_op
+    //@  rewrite R6
+    //@  subst "opcode as u8" => "opcode_u8(opcode)" count=1
+    //@  requires old(self).pwf()
+    //@  ensures final(self).pwf(), old(self).same_but_code(final(self))
+    //@  ensures final(self).code().len() == old(self).code().len() + 3 && final(self).code().subrange(0, old(self).code().len() as int) == old(self).code()
+    //@  ensures final(self).code()[old(self).code().len() as int] == opcode_byte(opcode)
+    //@  ensures u16_of(final(self).code()[old(self).code().len() as int + 1], final(self).code()[old(self).code().len() as int + 2]) == constant
+    //@end
+
+    //@fn file=yarel/src/compiler.rs path=Parser::emit_constant
+    //@  rewrite R6
+    //@  subst "value::Value" => "Value" count=1
+    //@  subst "OpCode::Constant as u8" => "opcode_u8(OpCode::Constant)" count=1
+    //@  requires old(self).pwf()
+    //@  ensures final(self).pwf(), old(self).has_error() ==> final(self).has_error()
+    //@  ensures final(self).compilers.len() == old(self).compilers.len()
+    //@  ensures final(self).pushed == old(self).pushed + 1
+    //@  ensures final(self).code().len() == old(self).code().len() + 3 && final(self).code().subrange(0, old(self).code().len() as int) == old(self).code()
+    //@  ensures final(self).code()[old(self).code().len() as int] == opcode_byte(OpCode::Constant)
+    //@  ensures final(self).has_error() || ({ let c = u16_of(final(self).code()[old(self).code().len() as int + 1], final(self).code()[old(self).code().len() as int + 2]); 0 <= c < final(self).cur().chunk.constants@.len() && final(self).cur().chunk.constants@[c] == value })
+    //@  at body.end proof { self.pushed = self.pushed + 1; }
+    //@end
+
+    //@fn file=yarel/src/compiler.rs path=Parser::argument_list ret=r
+    //@  requires old(self).pwf(), 0 <= old(self).pushed
+    //@  ensures final(self).pwf(), old(self).has_error() ==> final(self).has_error()
+    //@  ensures final(self).compilers.len() == old(self).compilers.len()
+    //@  ensures final(self).has_error() || r as int == final(self).pushed - old(self).pushed
+    //@  ensures old(self).pushed <= final(self).pushed < 0x3000_0000 || final(self).pushed == old(self).pushed
+    //@  loop 0 invariant self.pwf(), old(self).has_error() ==> self.has_error(), self.compilers.len() == old(self).compilers.len()
+    //@  loop 0 invariant 0 <= old(self).pushed, arg_count as int == self.pushed - old(self).pushed, arg_count == 0 || self.pushed < 0x3000_0000
+    //@  loop 0 invariant arg_count <= 255 || self.has_error()
+    //@  loop 0 ensures self.pwf(), old(self).has_error() ==> self.has_error(), self.compilers.len() == old(self).compilers.len()
+    //@  loop 0 ensures arg_count as int == self.pushed - old(self).pushed, self.pushed < 0x3000_0000, arg_count <= 255 || self.has_error()
+    //@  loop 0 decreases 0x3000_0000 - self.pushed
+    //@end
+    spec fn last2(&self, op: OpCode, old_pushed: int) -> bool {
+        let c = self.code();
+        &&& c.len() >= 2 && c[c.len() - 2] == opcode_byte(op)
+        &&& (self.has_error() || c[c.len() - 1] as int == self.pushed - old_pushed)
+    }
+
+    //@fn file=yarel/src/compiler.rs path=Parser::call
+    //@  subst "OpCode::Call as u8" => "opcode_u8(OpCode::Call)" count=1
+    //@  requires old(s).pwf(), 0 <= old(s).pushed
+    //@  ensures final(s).pwf(), old(s).has_error() ==> final(s).has_error()
+    //@  ensures final(s).last2(OpCode::Call, old(s).pushed)
+    //@end
+
+    //@fn file=yarel/src/compiler.rs path=Parser::vector
+    //@  subst "OpCode::BuildVec as u8" => "opcode_u8(OpCode::BuildVec)" count=1
+    //@  requires old(s).pwf(), 0 <= old(s).pushed
+    //@  ensures final(s).pwf(), old(s).has_error() ==> final(s).has_error()
+    //@  ensures final(s).last2(OpCode::BuildVec, old(s).pushed)
+    //@end
+
+    //@fn file=yarel/src/compiler.rs path=Parser::hash_map
+    //@  subst "OpCode::BuildHashMap as u8" => "opcode_u8(OpCode::BuildHashMap)" count=1
+    //@  requires old(s).pwf(), 0 <= old(s).pushed
+    //@  ensures final(s).pwf(), old(s).has_error() ==> final(s).has_error()
+    //@  ensures ({ let c = final(s).code(); c.len() >= 2 && c[c.len() - 2] == opcode_byte(OpCode::BuildHashMap) && (final(s).has_error() || 2 * (c[c.len() - 1] as int) == final(s).pushed - old(s).pushed) })
+    //@  loop 0 invariant s.pwf(), old(s).has_error() ==> s.has_error(), s.compilers.len() == old(s).compilers.len()
+    //@  loop 0 invariant 0 <= old(s).pushed, 2 * (num_entries as int) == s.pushed - old(s).pushed, num_entries == 0 || s.pushed < 0x3000_0000
+    //@  loop 0 invariant num_entries <= 255 || s.has_error()
+    //@  loop 0 ensures s.pwf(), old(s).has_error() ==> s.has_error(), s.compilers.len() == old(s).compilers.len()
+    //@  loop 0 ensures 2 * (num_entries as int) == s.pushed - old(s).pushed, num_entries <= 255 || s.has_error()
+    //@  loop 0 decreases 0x3000_0000 - s.pushed
+    //@end
+
+    //@fn file=yarel/src/compiler.rs path=Parser::grouping
+    //@  rewrite R13
+    //@  subst "OpCode::BuildTuple as u8" => "opcode_u8(OpCode::BuildTuple)" count=1
+    //@  requires old(s).pwf(), 0 <= old(s).pushed
+    //@  ensures final(s).pwf(), old(s).has_error() ==> final(s).has_error()
+    //@  ensures final(s).pushed - old(s).pushed != 1 ==> final(s).last2(OpCode::BuildTuple, old(s).pushed)
+    //@  loop 0 invariant s.pwf(), old(s).has_error() ==> s.has_error(), s.compilers.len() == old(s).compilers.len()
+    //@  loop 0 invariant 0 <= old(s).pushed, num_elems as int == s.pushed - old(s).pushed, num_elems == 0 || s.pushed < 0x3000_0000
+    //@  loop 0 invariant num_elems <= 255 || s.has_error()
+    //@  loop 0 invariant_except_break !single_elem_tuple
+    //@  loop 0 ensures s.pwf(), old(s).has_error() ==> s.has_error(), s.compilers.len() == old(s).compilers.len()
+    //@  loop 0 ensures num_elems as int == s.pushed - old(s).pushed, num_elems <= 255 || s.has_error()
+    //@  loop 0 decreases 0x3000_0000 - s.pushed
+    //@end
+
+    //@fn file=yarel/src/compiler.rs path=Parser::interpolation
+    //@  rewrite R14
+    //@  subst "OpCode::BuildString as u8" => "opcode_u8(OpCode::BuildString)" count=1
+    //@  subst "OpCode::FormatString as u8" => "opcode_u8(OpCode::FormatString)" count=1
+    //@  subst "s.previous.source.is_empty()" => "string_is_empty(&s.previous.source)" count=2
+    //@  requires old(s).pwf(), 0 <= old(s).pushed < 0x3000_0000
+    //@  ensures final(s).pwf(), old(s).has_error() ==> final(s).has_error()
+    //@  ensures final(s).last2(OpCode::BuildString, old(s).pushed)
+    //@  loop 0 invariant s.pwf(), old(s).has_error() ==> s.has_error(), s.compilers.len() == old(s).compilers.len()
+    //@  loop 0 invariant 0 <= old(s).pushed <= s.pushed, arg_count as int == s.pushed - old(s).pushed, s.pushed < 0x3000_0000
+    //@  loop 0 ensures s.pwf(), old(s).has_error() ==> s.has_error(), s.compilers.len() == old(s).compilers.len()
+    //@  loop 0 ensures arg_count as int == s.pushed - old(s).pushed, s.pushed < 0x3000_0000
+    //@  loop 0 decreases 0x3000_0000 - s.pushed
     //@end
 }
 
